@@ -323,3 +323,56 @@ func TestVfReplay_C20(t *testing.T) {
 		t.Fatalf("%s", vfFail("C20", "replay", sig, &c, "%s", msg))
 	}
 }
+
+// Native fuzzing with a direct byte decoding (words, k) plus hostile constants in the corpus.
+func FuzzVf_C20(f *testing.F) {
+	le := func(ws ...uint64) []byte {
+		var b []byte
+		for _, w := range ws {
+			for i := 0; i < 8; i++ {
+				b = append(b, byte(w>>(8*i)))
+			}
+		}
+		return b
+	}
+	f.Add(le(1, 9, 0, 9, 5, 9, 7, 9, 9, 9), uint64(3), uint8(2), uint8(0))
+	f.Add(le(), uint64(0), uint8(0), uint8(0))
+	f.Add(le(0, 0, math.MaxUint64, 0, math.MaxUint64, 0, math.MaxUint64, 0, math.MaxUint64, 0), uint64(math.MaxUint64), uint8(2), uint8(1))
+	f.Add(le(2, 1, 4, 1, 6, 1, 8, 1, 10, 1, 12, 1, 14, 1, 16, 1, 18, 1, 20, 1), uint64(1<<63), uint8(10), uint8(3))
+	f.Fuzz(func(t *testing.T, raw []byte, k uint64, n uint8, off uint8) {
+		words := make([]uint64, len(raw)/8)
+		for i := range words {
+			for j := 0; j < 8; j++ {
+				words[i] |= uint64(raw[i*8+j]) << (8 * j)
+			}
+		}
+		c := &vfSearchCase{Off: int(off % 8), K: k, Origin: "fuzz"}
+		c.N = 2 * (int(n) % 128)
+		if c.Off+c.N > len(words) {
+			c.N = (len(words) - c.Off) &^ 1
+			if c.N < 0 {
+				c.N, c.Off = 0, 0
+			}
+		}
+		c.Back = append(words, make([]uint64, 16)...)
+		for i := len(words); i < len(c.Back); i++ {
+			c.Back[i] = k + uint64(i%3) - 1
+		}
+		// keys ascending as in tree nodes: sort the even positions of the slice
+		ks := make([]uint64, 0, c.N/2)
+		for i := 0; i < c.N; i += 2 {
+			ks = append(ks, c.Back[c.Off+i])
+		}
+		for i := 1; i < len(ks); i++ {
+			for j := i; j > 0 && ks[j] < ks[j-1]; j-- {
+				ks[j], ks[j-1] = ks[j-1], ks[j]
+			}
+		}
+		for i := range ks {
+			c.Back[c.Off+2*i] = ks[i]
+		}
+		if sig, msg := vfCheckSearchCase(c); sig != "" {
+			t.Fatalf("%s", vfFail("C20", "search", sig, c, "%s", msg))
+		}
+	})
+}
